@@ -164,7 +164,8 @@ class Trunc(Part):
                     absvecs[k] = absvecs[j]
                     keys[k] = keys[j]
         # design vectors: distinct designs are far apart; the -1.0 / -2.0 first coordinates collide in hash()
-        base = {k: [[-1.0, -2.0, 3.0, 4.5][k % 4], float(k)] for k in set(keys)}
+        # (designs 2j and 2j+1 differ ONLY in a first coordinate of -1.0 vs -2.0: their tuples collide in hash())
+        base = {k: [[-1.0, -2.0][k % 2], float(k // 2)] if k % 4 < 2 else [[3.0, 4.5][k % 2], float(k)] for k in set(keys)}
         vectors = [base[k] for k in keys]
         inds = make_inds(rng, absvecs, vectors)
         st0, res0 = observe(DummySelector([]).fast_nondominated_sorting, inds)
